@@ -1,3 +1,2 @@
--- This module serves as the root of the `Revm` library.
--- Import modules here that should be built as part of the library.
-import Revm.Basic
+-- Root of the library: every property file (and through them the model, spec and proofs).
+import Revm.Props.C03
